@@ -76,6 +76,7 @@ func assume(b bool) {}
 func held(m any) bool { return true }
 func holdsNone() bool { return true }
 func heldx(m any) bool { return true }
+func locksBelow(m any) bool { return true }
 func inpos(c any) int { return 0 }
 func inbyte(c any, i int) byte { return 0 }
 func outlen(c any) int { return 0 }
